@@ -5,7 +5,7 @@ EXTENDS Dags, TLC, Json
 CONSTANTS N, MaxAr, WithConst, KindMode, Family
 Kinds == {"alias", "fresh", "sparse"}
 VARIABLES args, emitted
-Space == IF Family = "star" THEN StarSet(N, Kinds) ELSE DagSet(N, MaxAr, Kinds, WithConst, KindMode)
+Space == IF Family = "star" THEN StarSet(N, Kinds) ELSE IF Family = "share" THEN ShareSet(Kinds) ELSE DagSet(N, MaxAr, Kinds, WithConst, KindMode)
 Init == args \in Space /\ emitted = FALSE
 Next == /\ ~emitted /\ emitted' = TRUE /\ UNCHANGED args
         /\ PrintT(ToJson([args |-> args, ps |-> PathSum(args, 1), live |-> LiveOf(args)]))
